@@ -13,7 +13,8 @@ CHECKS = {
     'C16': ('runtime monitoring: boundary oracle (decimal quantize) over an override sweep + helper postconditions',
             'Every point of a decimal grid (sign x integer part x 4 fractional digits x digits -3..6 x 3 functions; '
             'thorough: the full grid, 4.2M executions) is executed through the real Parser/Executor and compared '
-            'exactly with decimal.Decimal quantize; in-situ postconditions on _round/_roundup/_rounddown give reach '
+            'exactly with decimal.Decimal quantize (the three modes of one amount on one Executor instance; mantissas at every decimal scale '
+            '10^-15..10^11, whole numbers as ints with negative digit counts, percent at all scales); in-situ postconditions on _round/_roundup/_rounddown give reach '
             'and localisation. Held on the executions observed, exhaustive for the stated grid only.',
             'Trusted: CPython decimal/float, openpyxl as workbook writer. Values beyond 4 fractional digits / other '
             'integer parts are not explored.'),
@@ -53,20 +54,22 @@ CHECKS = {
             'accepted (statement silent).'),
     'C19': ('runtime monitoring: boundary observation of the raised exception vs the planted cells (oracle by construction)',
             'Generated workbooks with planted suspicious fragments (constants and formulas, 1-2 per cell) and innocent cells at '
-            'random coordinates on 1-4 sheets are passed through the real Parser with the gate on and off; the exception class '
+            'random coordinates on 1-4 sheets (texts repeated in one row / column / across sheets, argument lists with nested brackets) are passed '
+            'through the real Parser with the gate on and off, on fresh parsers and toggled on one parser; the exception class '
             'and its suspicious_cells mapping are compared with the planted addresses and fragments. Held on the executions observed.',
             'Trusted: openpyxl places cells where told. Cells mixing upper-case and lower-case calls are outside the precondition.'),
     'C20': ('runtime monitoring: differential execution of the two runtimes on recorded in-situ arguments and synthetic tuples',
             'Helper name sets and signatures of a generated class and of a trivial subclass of AbstractExcelInPython are compared; '
             'every common helper is called in both with identical arguments - those recorded by a wrapper while real translations '
-            'are evaluated and synthetic hostile tuples per helper family - and results/exception classes compared. '
+            'are evaluated and synthetic hostile tuples per helper family, once on fresh instances and once as a history on one long-lived '
+            'instance per runtime - and results/exception classes compared. '
             'Held on the calls observed.',
             'Trusted: nothing but CPython; both sides are the real code. Arguments are sampled.'),
     'C09': ('runtime monitoring: facade event log checked against a sequential model; sha256 across a process x hash-seed '
             'matrix; thread stress with sys.monitoring yield injection',
             'All facade histories up to length 3 (thorough 4) plus random longer ones are executed on the real Parser; every '
             'get/write is compared with what a fresh parser returns for the settings in force, written bytes with returned '
-            'text. The same corpus is translated in fresh processes under several PYTHONHASHSEEDs, before and after other '
+            'text (the target path being absent, holding an earlier translation, or longer foreign text). The same corpus is translated in fresh processes under several PYTHONHASHSEEDs, before and after other '
             'translations, and by 8 barrier-released threads on their first translation with yields injected inside the lazy '
             'token-table initialisation; one sha256 per workbook is demanded throughout. Evidence reports overlaps and '
             'distinct interleavings actually observed.',
@@ -75,7 +78,8 @@ CHECKS = {
     'C04': ('runtime monitoring: override histories on the real Executor vs a fresh translation of the edited workbook '
             '(metamorphic oracle), repeated under several hash seeds; icontract postconditions on set_cells',
             'Generated histories of set_cells batches (same cell rewritten, formula cells incl. a raising one, blanks, cells '
-            'beyond the used range, two sheets, both addressing styles) are executed; after every batch all formula and touched '
+            'beyond the used range - also referenced by formulas -, two sheets, both addressing styles) are executed; after two batches out of three '
+            '(the third is followed directly by the next set_cells call) all formula and touched '
             'cells are compared with the library\'s own fresh translation of the edited workbook. Each history runs in fresh '
             'processes under 3 (thorough 16) PYTHONHASHSEEDs. Held on the histories observed.',
             'Trusted: the library translating the edited workbook afresh as the meaning of "edit and recalculate". '
@@ -87,7 +91,8 @@ CHECKS = {
             'supported function is called with 0..7 arguments; each text goes through the real entry-point translation while '
             'monitors check that code is only emitted for a completely consumed token stream, that lexer pieces add up to the '
             'text, that foreign exceptions never stand in for a rejection, that arities outside the grammar table are rejected, '
-            'that whitespace/separator variants agree with their base, and that accepted texts agree with the reference\'s parse '
+            'that whitespace/separator variants agree with their base, that every reference and literal token reaches the emitted code, that '
+            'empty arguments are refused, that a refusal is repeated when the same Parser is asked again, and that accepted texts agree with the reference\'s parse '
             'of the complete text. Held on the texts observed.',
             'Trusted: arity table transcribed from the pinned grammar; vf/xlref for accepted texts only.'),
     'C07': ('runtime monitoring: sys.addaudithook + canary side effects while the generated module is loaded and evaluated; '
@@ -105,7 +110,9 @@ CHECKS = {
             'Random layered dependency graphs using every reference kind are translated whole and, for EVERY formula cell, '
             'from that cell as entry point; each cell of the closure (computed by vf/xlref\'s reference analysis, SUMIF derived '
             'ranges included) is evaluated on both classes and compared. Cyclic workbooks (10 back-edge kinds x lengths 1-5 x '
-            'entry inside/outside/whole file) must end in E2PyclParserException. Held on the graphs observed.',
+            'entry inside/outside/whole file) must end in E2PyclParserException; one Parser kept across two different workbooks (entry set '
+            'once, only the path changes) must produce the slice of the second workbook. Values are compared by kind (blank is not 0). '
+            'Held on the graphs observed.',
             'Trusted: whole-file translation as the value reference; vf/xlref reference reader for the closure.'),
     'C02': ('runtime monitoring: boundary oracle by construction (unique value per coordinate) + L1 trace of the cells an '
             'evaluation touched + unknown-title workloads',
@@ -125,7 +132,8 @@ CHECKS = {
             'each translated on their own under a budget of logical steps; whole workbooks with hostile constants of every type and '
             'unusual sheet titles are translated, loaded as class object and from the written file, every non-blank cell\'s member is '
             'called on both and compared, titles/sizes compared with the workbook. Any foreign exception, unloadable text, missing '
-            'member, structural member failure, file/object difference or budget overrun is a violation. Held on the workbooks observed.',
+            'member, structural member failure, file/object difference, budget overrun or a refusal that is not repeated when the same '
+            'Parser is asked again is a violation. Held on the workbooks observed.',
             'Trusted: CPython compile/exec, sys.monitoring. "Never hangs" is decided only as "within the step budget on every generated '
             'input"; member failures that depend on the data (Excel errors) are not judged here.'),
     'C08': ('runtime monitoring: query history on one long-lived Executor checked offline against fresh-executor reference '
@@ -134,7 +142,8 @@ CHECKS = {
             'object twice, get_sheet by index and title are executed on one Executor under a fixed override set, interleaved '
             'with a second Executor on the same generated class under other overrides; every observation must equal what a '
             'fresh Executor reports for that coordinate, grids must have the shape (used range U overrides) in row-major order, '
-            'and icontract snapshots around every query must find the override set and sizes unchanged. Held on the schedules observed.',
+            'and icontract snapshots around every query must find the override set and sizes unchanged. The same schedules run over the '
+            'workbooks of the semantic checks (criteria, rounding, text forms, dates, all 40 functions). Held on the schedules observed.',
             'Trusted: a fresh Executor asked once as reference. Values compared by type and repr. TODAY excluded.'),
     'C11': ('runtime monitoring: boundary oracle = independent folds over the planted contents (vf/xlref, outcome sets) + '
             'split laws checked on the recorded results',
